@@ -42,7 +42,8 @@ def functions_encoded(quals):
 
 
 def write(prop, tier, seed, coverage, assumptions, wall_s, violations):
-    os.makedirs(os.path.join(ROOT, "evidence"), exist_ok=True)
+    evdir = os.environ.get("VERIF_EVIDENCE_DIR") or os.path.join(ROOT, "evidence")
+    os.makedirs(evdir, exist_ok=True)
     rec = {
         "property_id": prop,
         "tier": tier,
@@ -53,7 +54,7 @@ def write(prop, tier, seed, coverage, assumptions, wall_s, violations):
         "wall_s": round(wall_s, 2),
         "violations": violations,
     }
-    path = os.path.join(ROOT, "evidence", prop + ".json")
+    path = os.path.join(evdir, prop + ".json")
     tmp = path + ".tmp"
     with open(tmp, "w") as f:
         json.dump(rec, f, indent=1, ensure_ascii=True, default=repr)
